@@ -144,5 +144,33 @@ pub open spec fn vclass(base_in: Seq<char>, base_out: Seq<char>, outside: bool, 
 //@       && !final(element).attrs@.dom().contains("text-dx"@) && !final(element).attrs@.dom().contains("text-dy"@) && !final(element).attrs@.dom().contains("text-dxy"@)     @@C19.attrs.moved
 //@end
 
+// ------------------------------------------------------------------------------ the text itself
+// R-fragment: the statement of process_text_attr's per-line loop which decides a tspan's character
+// data. The property: each line of the author's text is the tspan's content, verbatim; only a line
+// with no characters at all gets the zero-width-space placeholder (the constant ZWSP, a fragment of its own).
+//@item src/text.rs :: fn process_text_attr
+//@ fragment-name zwsp_const
+//@ fragment-from <<<    const ZWSP: &str = >>>
+//@ fragment-to <<<; // Zero-width space>>>
+//@ fragment-head <<<fn zwsp_const() -> &'static str {>>>
+//@ fragment-inner
+//@ fragment-tail <<<}>>>
+//@ strlit "\u{200B}"
+//@ ensures
+//@ - r@ == seq!['\u{200B}']     @@C19.tspan.placeholder_is_zero_width_space
+//@end
+//@item src/text.rs :: fn process_text_attr
+//@ fragment-name tspan_content
+//@ fragment-from <<<            tspan.text_content = Some(>>>
+//@ fragment-to <<<            });>>>
+//@ fragment-head <<<fn tspan_content(tspan: &mut SvgElement, text_fragment: String, ZWSP: &str) {>>>
+//@ fragment-tail <<<}>>>
+//@ replace?[R-clone] <<<text_fragment.to_string()>>> => <<<text_fragment.clone()>>>
+//@ ensures
+//@ - text_fragment@.len() > 0 ==> final(tspan).text_content == Some(text_fragment)     @@C19.tspan.line_verbatim
+//@ - text_fragment@.len() == 0 ==> final(tspan).text_content is Some && final(tspan).text_content->Some_0@ == ZWSP@     @@C19.tspan.empty_line_placeholder
+//@ - final(tspan).name == old(tspan).name && final(tspan).attrs == old(tspan).attrs && final(tspan).classes == old(tspan).classes     @@C19.tspan.frame
+//@end
+
 } // verus!
 fn main() {}
